@@ -1565,8 +1565,8 @@ func (env *specEnv) havocTarget(x *Expr, st *State) error {
 		// every ghost family (library objects' abstract state)
 		for _, name := range sortedKeys(e.specFuncs) {
 			sf := e.specFuncs[name]
-			if !sf.Ghost {
-				continue
+			if !sf.Ghost || sf.Pkg != "" {
+				continue // ghosts of module packages are the program's own ghost state: only `ghostset` changes them
 			}
 			rt, err := env.parseType(sf.Ret)
 			if err != nil {
